@@ -21,16 +21,20 @@ Open Scope Z_scope.
    The executable definition of that class is the generator of harness/parser/gen.go; the
    correspondence run of the check compares implementation, model and denotation on it.
 
-   PROVED (below): the statement for the kinds VERSION, BS_ (all three forms), BU_, BO_ with its SG_
-   lines (plain / multiplexer switch M / multiplexed m<k> signals, both byte orders and signs, factor,
-   offset, minimum, maximum as optionally signed decimal integers converted by the correctly rounded
-   conversion, unit string, one or more receivers; message id valid standard / extended / pseudo id)
-   and unknown lines (identifier / decimal number / punctuation tokens), in the plain layout (one line
-   per definition or signal, single spaces, LF, every line terminated; strings over printable ASCII
-   without quote and backslash; unsigned integers < 2^64 without leading zeros; any count and order
-   of definitions). NOT covered by the proof: NS_, VAL_TABLE_, BO_TX_BU_, EV_, ENVVAR_DATA_, CM_,
-   BA_DEF_, BA_DEF_DEF_, BA_, VAL_, SIG_VALTYPE_, top-level SG_, fractional/exponent floats, escaped
-   quotes, UTF-8 and newlines in strings, the other layouts. *)
+   PROVED (below): the statement for 12 of the 17 kinds, in the plain layout (one line per definition
+   or signal, tokens separated by single spaces, LF, every line terminated), any count and order:
+     VERSION; BS_ (all three forms); BU_; BO_ with its SG_ lines (plain / multiplexer switch M /
+     multiplexed m<k> signals, both byte orders and signs, factor, offset, minimum, maximum, unit,
+     one or more receivers; message id valid standard / extended / pseudo id);
+     CM_ (all five object forms); VAL_ (signal and environment variable form); VAL_TABLE_;
+     SIG_VALTYPE_ (with and without ':'); BO_TX_BU_ (with and without commas); EV_; ENVVAR_DATA_;
+     unknown lines (identifier / decimal number / punctuation tokens).
+   Numbers read by ParseFloat are optionally signed decimal integers (value = the model's correctly
+   rounded conversion of the digits); unsigned integers < 2^64 without leading zeros; strings over
+   printable ASCII without quote and backslash; positions of value descriptions included.
+   NOT covered by the proof: NS_, BA_DEF_, BA_DEF_DEF_, BA_, top-level SG_, fractional/exponent
+   floats, escaped quotes, UTF-8 and newlines in strings, the other layouts (CRLF, blank lines,
+   indentation, extra spaces, empty gaps, line ends inside definitions). *)
 
 (** parse (print ds) = Ok (elaborate ds): one definition per source definition, in order, every field
     equal to the source value, position = (line of the definition, column 1, byte offset of its line) *)
@@ -70,6 +74,12 @@ Proof. exact (fun il id => conj (f9_old il id) (f9_fixed il id)). Qed.
     VERSION "") ... *)
 Example C04_nonvacuous : Forall wf_sdef sample_ds /\ List.length sample_ds = 7%nat.
 Proof. exact (conj sample_ds_wf eq_refl). Qed.
+
+(** ... as does a file with the one-line kinds (CM_ SG_ 1 S "hi" ; / CM_ "" ; / VAL_ 1 S -1 "a" 2 "" ; /
+    VAL_ E ; / VAL_TABLE_ T 0 "z" ; / SIG_VALTYPE_ 1 S : 1 ; / SIG_VALTYPE_ 1 S 2 ; / BO_TX_BU_ 1 : A , B ; /
+    EV_ E : 1 [ 0 | 9 ] "V" -3 7 DUMMY_NODE_VECTOR2 N , M ; / ENVVAR_DATA_ E : 8 ;) *)
+Example C04_nonvacuous_one_line_kinds : Forall wf_sdef sample2_ds /\ List.length sample2_ds = 10%nat.
+Proof. exact (conj sample2_ds_wf eq_refl). Qed.
 
 (** ... and the model parses a file of other kinds (BO_/SG_ with extended id, multiplexed big-endian
     signed signal, unknown line, two-line comment) to six definitions *)
